@@ -918,6 +918,18 @@ func (v *FV) applyContract(fr *Frame, st *State, con *Contract, callee *ssa.Func
 	bindResultNames(vars, sig, results)
 	env2 := &ExprEnv{v: v, vars: vars, snap: st.snap, old: pre, pkg: pkg, reach: st.reach, what: "contract of " + name, freshBase: topAtCall}
 	for _, c := range con.Ensures {
+		if strings.HasPrefix(c.Name, "opt.") {
+			// an alternative phrasing of the contract: assumed only by callers that ask for it ("uses opt.x")
+			asked := false
+			if v.con != nil {
+				for _, u := range v.con.Uses {
+					asked = asked || u == c.Name
+				}
+			}
+			if !asked {
+				continue
+			}
+		}
 		t, err := env2.EvalBool(c.Text)
 		if err != nil {
 			v.specError(c, err)
